@@ -13,7 +13,8 @@ RULE = ('Generated converters (dc log-uniform 1e-3..1e3 x length unit spelling, 
         'mc x mass unit) and arguments (python float / int, numpy scalar, 1-D and 2-D arrays, values log-uniform of either sign '
         'incl. 0 and 1). Every documented method is called; the magnitude is compared with the textbook formula evaluated with an '
         'own SI table (exact 2019 k_B, N_A, e; unit factors), the unit of the returned pint Quantity with the documented unit, '
-        'f(a*x) with a*f(x) (affine for Celsius), array results with scalar calls elementwise. Non-trivial = dc != 1 and the '
+        'f(a*x) with a*f(x) (affine for Celsius), array results with scalar calls elementwise; in half of the cases a second converter with other '
+        'characteristic values is constructed before the first one is used and both must stay correct. Non-trivial = dc != 1 and the '
         'argument is not 0 or 1; distinct = spec hash.')
 ASSUMPTIONS = ['SI factors of the unit spellings are taken from the 2019 SI / thermochemical calorie (4.184 J), not from pint',
                'magnitudes are compared to 1e-12 relative (a conversion is a product of <10 exactly-known factors)',
@@ -48,7 +49,9 @@ def spec_strategy():
         'ec_unit': st.sampled_from(sorted(ENERGY_UNITS)),
         'mc': specs.logfloat(-2, 3, 5), 'mc_unit': st.sampled_from(MASS_UNITS),
         'arg': arg, 'diameter': st.one_of(specs.logfloat(-2, 2, 6), st.sampled_from([1.0, 2])),
-        'scale': st.one_of(specs.logfloat(-2, 2, 5), st.sampled_from([-1.0, 3.0]))})
+        'scale': st.one_of(specs.logfloat(-2, 2, 5), st.sampled_from([-1.0, 3.0])),
+        'other': st.one_of(st.none(), st.fixed_dictionaries({'dc': specs.logfloat(-3, 3, 6), 'dc_unit': st.sampled_from(sorted(LENGTH_UNITS)),
+                                                           'ec': specs.logfloat(-3, 3, 6), 'ec_unit': st.sampled_from(sorted(ENERGY_UNITS))}))})
 
 
 def build_arg(a):
@@ -100,6 +103,11 @@ class Convert(Sub):
         sig = PID + '/'
         uc = P.util.UnitConverter(dc=spec['dc'], dc_unit=spec['dc_unit'], mc=spec['mc'], mc_unit=spec['mc_unit'],
                                   ec=spec['ec'], ec_unit=spec['ec_unit'])
+        if spec.get('other') is not None:
+            # a second converter with other characteristic values is alive while the first one is used: converters are independent
+            o = spec['other']
+            other = P.util.UnitConverter(dc=o['dc'], dc_unit=o['dc_unit'], mc=spec['mc'], mc_unit=spec['mc_unit'], ec=o['ec'], ec_unit=o['ec_unit'])
+            out.label('second-converter-alive')
         x = build_arg(spec['arg'])
         xa = np.asarray(x, dtype=float)
         a = float(spec['scale'])
@@ -161,6 +169,19 @@ class Convert(Sub):
                     if abs(mi - got) > 8 * np.finfo(float).eps * max(abs(mi), 273.15 if meth == 'toCelcius' else 0.0):
                         out.fail(sig + meth + '/elementwise', '%s on an array gives %r at index %d, the scalar call %r' % (meth, got, i, mi))
                         break
+        if spec.get('other') is not None:
+            o = dict(spec, **spec['other'])
+            for meth, (f, unit) in expected(o).items():
+                try:
+                    q = getattr(other, meth)(x, d) if meth == 'toVolumeFraction' else getattr(other, meth)(x)
+                    mag = np.asarray(q.magnitude, dtype=float)
+                except Exception as exc:   # noqa
+                    out.fail(sig + meth + '/raises', 'second converter: %s raised %s' % (meth, type(exc).__name__))
+                    continue
+                want = f(xa)
+                if mag.shape != xa.shape or not _close(mag, want, np.abs(want) + (273.15 if meth == 'toCelcius' else 0.0)):
+                    out.fail(sig + meth + '/magnitude', 'second converter (built after the first, used after it): %s gives %r, SI formula %r' % (
+                        meth, mag.ravel()[:3], np.asarray(want).ravel()[:3]))
         # the characteristic quantities themselves
         try:
             dm = uc.d.to('meter').magnitude
